@@ -927,6 +927,20 @@ def gen_tables(repo):
     L.append(f"def treeImplicitTypeGuard : Bool := {'true' if 'par_implicit_type in IMP_TYPE_LOOKUP' in tt_src else 'false'}")
     L.append("/-- `to_tree`: the sub-tree root is compared through the string forms of its *parts* -/")
     L.append(f"def treeFromPathViaParts : Bool := {'true' if 'tuple((str(i) for i in DataPath(*from_path).parts))' in tt_src else 'false'}")
+    # names a `**items` keyword cannot have: the parameters it is forwarded past
+    # (`Cls.items_contain(cls, **items)` -> `Condition.__init__(self, callable, *a, **kw)` ->
+    #  `PreparedConditionCallable.__init__(self, func, *a, **kw)`); a clash is Python's TypeError
+    reserved = ["cls"]
+    for cname in ("Condition", "PreparedConditionCallable"):
+        cc = find_class(ctree, cname)
+        init = find_method(cc, "__init__") if cc is not None else None
+        if init is None:
+            raise ExtractError(f"{cname}.__init__ not found")
+        for a in init.args.posonlyargs + init.args.args + init.args.kwonlyargs:
+            if a.arg not in reserved:
+                reserved.append(a.arg)
+    L.append("/-- keyword names that clash with a parameter on the way from a `**kwargs` constructor to the stored callable -/")
+    L.append("def reservedKwNames : List String := " + lean_list(lstr(x) for x in reserved))
     vd = find_class(stree, "ValidatedData")
     vd_src = ast.unparse(find_method(vd, "__init__"))
     rt_src = ast.unparse(rt)
